@@ -66,6 +66,12 @@ def main():
         cfg = stages.filter_cfg(f, **dims)
         cfg['thresholds'] = [1] if f == 'OverlapFilter' else [0.5]
         ck.e2('step-%s' % f, h_join.make(cfg))
+    # tables that consist of exactly the key and the join column (projection may alias the input)
+    for e in ('jaccard_join', 'overlap_coefficient_join', 'overlap_join'):
+        cfg = stages.join_cfg(e, nl=2, nr=2, k=1, kmin=0, tok_return_set=[True, False], missing='sym',
+                              allow_missing=[False, True], n_jobs=[1], props=P, extra=(), validate_every=40)
+        cfg['thresholds'] = [1] if e == 'overlap_join' else [0.5]
+        ck.e2('two-column-%s' % e, h_join.make(cfg))
     calls = [dict(entry='jaccard_join', threshold=0.5), dict(entry='cosine_join', threshold=0.5, n_jobs=2),
              dict(entry='dice_join', threshold=0.5, allow_missing=True),
              dict(entry='overlap_coefficient_join', threshold=0.5, n_jobs=2),
